@@ -56,7 +56,7 @@ def candidates(rng, tier):
                 body = (unit * total).encode()[:total - 7].decode("utf-8", "ignore")
                 salted.append("%s%s:a.org" % (sig, body))
         rnd = ["%s%s:a.org" % (sig, jsongen.rand_string(rng, 6).replace(":", "").replace("\x00", ""))
-               for _ in range(300 if tier == "quick" else 4000)]
+               for _ in range(300 if tier == "quick" else 60000)]
         out[k] = base + salted + rnd
     return out
 
@@ -85,7 +85,7 @@ def text_family(rng, tier):
              "?via=", "&via=x", "?action=join", "&action=chat", "/e/", "/$", "/!", "é", ""]
     for gtxt in good:
         n = len(gtxt)
-        for _ in range(100 if tier == "quick" else 600):
+        for _ in range(100 if tier == "quick" else 6000):
             i = rng.randint(0, n)
             e = rng.choice(edits)
             r = rng.random()
